@@ -279,6 +279,38 @@ def purity(repo: Repo, rep, P: str):
     rep.sample({"save_call_graph": sorted(k.split(":")[-1] for k in clo)[:25]})
 
 
+def writer_purity(repo: Repo, rep, P: str, rule: str, rel_part: str, floor: int):
+    """The purity rule restricted to the save-side functions of one source file (shared with C16, C15)."""
+    cg, roots, clo = save_closure(repo)
+    n = 0
+    for key, (f, parent) in sorted(clo.items()):
+        if rel_part not in f.rel:
+            continue
+        name = key.split(".")[-1]
+        if name.startswith("__init") or f.kind == "setter":
+            continue
+        n += 1
+        bad = False
+        for e in effects.effects(f):
+            if e.fresh:
+                continue
+            tgt = e.target
+            first = tgt.split(".")[1].split("[")[0].split("(")[0] if "." in tgt else tgt
+            if "[= " in tgt:
+                first = tgt.split("[= ")[1].split(".")[1].split("…")[0].split(".")[0]
+            if first.startswith("_") or not e.public:
+                continue
+            bad = True
+            chain = " → ".join(cg.chain(clo, key)[-4:])
+            rep.violation(f"{P}.{rule}", key.replace("<get>", "").replace("<set>", ""), norm(e.node)[:120],
+                          f"saving reaches `{tgt}` {'assignment' if e.kind == 'store' else 'in-place mutation'} ({chain}): "
+                          "writing the object changes the state that is supposed to survive the save", f"{f.rel}:{e.node.lineno}")
+        if not bad:
+            rep.ok(f"{P}.{rule}", key.replace("<get>", "").replace("<set>", ""), "no store to / mutation of public non-fresh state",
+                   nontrivial=False)
+    rep.count(f"save_side_functions[{rel_part}]", n, floor)
+
+
 def _param_names(f) -> Set[str]:
     return {a.arg for a in f.node.args.args} if hasattr(f.node, "args") else set()
 
